@@ -51,8 +51,8 @@ def compare(jobs, stream, tags=None, impl_outs=None):
                 d['impl'] = str(d['impl'])[:1500]
             dis.append(d)
     return {'cases': len(jobs), 'ops': nops, 'disagreements': dis, 'outcomes': outcomes,
-            'distinct_nontrivial': len(distinct), 'impl_outs': iouts}
+            'distinct_nontrivial': len(distinct), 'impl_outs': iouts, 'model_outs': mouts}
 
 
 def strip(res):
-    return {k: v for k, v in res.items() if k != 'impl_outs'}
+    return {k: v for k, v in res.items() if k not in ('impl_outs', 'model_outs')}
